@@ -367,5 +367,12 @@ def _sg_sweep(prog):
     return sg_sweep(prog)
 
 
+def _opt_truth(prog):
+    # `if not wrapped_instance:` decides whether an instance is known to the graph: a wrapper must not have a truth value of its own
+    from .opttruth import opt_truth
+
+    return opt_truth(prog, ["symbol_graph.WrappedInstance"], 2)
+
+
 def run(prog: Program, tier: str) -> List[RuleResult]:
-    return [sg_coherence(prog), idkey(prog), rel_gate(prog), sg_purge_directions(prog), rel_live(prog), _sg_sweep(prog)]
+    return [sg_coherence(prog), idkey(prog), rel_gate(prog), sg_purge_directions(prog), rel_live(prog), _sg_sweep(prog), _opt_truth(prog)]
